@@ -1,6 +1,7 @@
 package props
 
 import (
+	"go/constant"
 	"encoding/json"
 	"fmt"
 	"go/token"
@@ -137,6 +138,12 @@ func normCond(bo *ssa.BinOp) string {
 	x, y := describeVal(bo.X, 0), describeVal(bo.Y, 0)
 	switch bo.Op {
 	case token.EQL, token.NEQ:
+		// v&K == K and v&K != 0 make the same cut when K is a single bit: written as the comparison with 0
+		if k, ok := singleBit(bo.Y); ok && maskedBy(bo.X, k) {
+			y = "0"
+		} else if k, ok := singleBit(bo.X); ok && maskedBy(bo.Y, k) {
+			x = "0"
+		}
 		if x > y {
 			x, y = y, x
 		}
@@ -147,6 +154,42 @@ func normCond(bo *ssa.BinOp) string {
 		return y + " <? " + x
 	}
 	return ""
+}
+
+// singleBit: v is an integer constant with exactly one bit set.
+func singleBit(v ssa.Value) (uint64, bool) {
+	k, ok := v.(*ssa.Const)
+	if !ok || k.Value == nil || k.Value.Kind() != constant.Int {
+		return 0, false
+	}
+	u, exact := constant.Uint64Val(k.Value)
+	return u, exact && u != 0 && u&(u-1) == 0
+}
+
+// maskedBy: v is w & k (either operand order, conversions stripped).
+func maskedBy(v ssa.Value, k uint64) bool {
+	for {
+		switch x := v.(type) {
+		case *ssa.Convert:
+			v = x.X
+			continue
+		case *ssa.ChangeType:
+			v = x.X
+			continue
+		case *ssa.BinOp:
+			if x.Op != token.AND {
+				return false
+			}
+			for _, op := range []ssa.Value{x.X, x.Y} {
+				if c, ok := op.(*ssa.Const); ok && c.Value != nil && c.Value.Kind() == constant.Int {
+					if u, exact := constant.Uint64Val(c.Value); exact && u == k {
+						return true
+					}
+				}
+			}
+		}
+		return false
+	}
 }
 
 var condTokenRe = regexp.MustCompile(`[A-Za-z_][A-Za-z0-9_]*|[0-9]+(?:\.[0-9]+)?|"[^"]*"|<\?|=\?=|.`)
